@@ -73,11 +73,12 @@ def one_layer(
   lon, _ = grid.nodal_axes
   u = jnp.ones_like(lon)[..., jnp.newaxis] * u
   sec_lat_u = u * sec_lat
-  vorticity = -grid.sec_lat_d_dlat_cos2(grid.to_modal(sec_lat_u))
+  vorticity = -grid.sec_lat_d_dlat_cos2(grid.to_modal(sec_lat_u)) / grid.radius
   f = shallow_water.get_coriolis(grid)
   total_vorticity = grid.to_nodal(vorticity) + f
   potential_plus_energy = -grid.inverse_laplacian(
-      grid.sec_lat_d_dlat_cos2(grid.to_modal(sec_lat_u * total_vorticity)))
+      grid.sec_lat_d_dlat_cos2(grid.to_modal(sec_lat_u * total_vorticity))
+      / grid.radius)
   potential = potential_plus_energy - grid.to_modal(u**2 / 2)
   potential = potential.at[0, 0].set(0)
   return shallow_water.State(vorticity=vorticity,
